@@ -320,22 +320,35 @@ fn random_selectors(c: &mut LineCase, rng: &mut Rng) {
             p[..n].to_vec()
         }
     };
-    match rng.below(6) {
-        0 => {}
-        1 => c.paths.push(pick_path(rng)),
-        2 => {
-            let mut g = pick_path(rng);
-            g.extend_from_slice(*rng.pick(&[&b"*"[..], b"**", b"?", b"**/", b""]));
-            c.globs.push(g)
-        }
-        3 => {
-            c.paths.push(pick_path(rng));
-            c.globs.push(rng.bytes_from(b"ab/*?.", 4));
-        }
-        4 => c.regexes.push((*rng.pick(&["a", "^a", "/$", "b.?c", r"\.rs$", "[0-7]"])).to_string()),
-        _ => {
-            c.paths.push(pick_path(rng));
-            c.regexes.push((*rng.pick(&["a", "^\"", "\\\\"])).to_string());
+    // each selector kind independently, so every combination (path+glob, glob+regex, all three,
+    // several of one kind) occurs; one case in eight has no selector at all
+    if !rng.chance(1, 8) {
+        let mut any = false;
+        while !any {
+            if rng.chance(2, 5) {
+                any = true;
+                for _ in 0..1 + rng.below(2) {
+                    c.paths.push(pick_path(rng));
+                }
+            }
+            if rng.chance(2, 5) {
+                any = true;
+                for _ in 0..1 + rng.below(2) {
+                    if rng.chance(1, 3) {
+                        c.globs.push(rng.bytes_from(b"ab/*?.", 4));
+                    } else {
+                        let mut g = pick_path(rng);
+                        g.extend_from_slice(*rng.pick(&[&b"*"[..], b"**", b"?", b"**/", b"", b"*/*"]));
+                        c.globs.push(g);
+                    }
+                }
+            }
+            if rng.chance(1, 3) {
+                any = true;
+                for _ in 0..1 + rng.below(2) {
+                    c.regexes.push((*rng.pick(&["a", "^a", "/$", "b.?c", r"\.rs$", "[0-7]", "^\"", "\\\\", "^$", "x|/"])).to_string());
+                }
+            }
         }
     }
     c.invert = rng.chance(1, 3);
